@@ -403,9 +403,61 @@ def multiStep (acc : List VName × List VName) : Stmt → List VName × List VNa
 
 def multiOf (P : List Stmt) : List VName := (P.foldl multiStep ([], [])).2
 
+mutual
+/-- the variables an expression reads (`variables_read`) -/
+def namesE : Expr → List VName
+  | .infix _ _ l r => namesE l ++ namesE r
+  | .prefix _ _ e => namesE e
+  | .switch _ c t f => namesE c ++ namesE t ++ namesE f
+  | .var _ v => [v]
+  | .num _ _ => []
+  | .call _ _ args => namesEs args
+  | .arr _ vals => namesEs vals
+  | .acc _ v access => v :: namesAs access
+  | .upd _ v access rhe => v :: (namesAs access ++ namesE rhe)
+  | .phi _ args => args
+def namesEs : Exprs → List VName
+  | .nil => []
+  | .cons e r => namesE e ++ namesEs r
+def namesAs : Accs → List VName
+  | .nil => []
+  | .cons (.idx e) r => namesE e ++ namesAs r
+  | .cons (.cmp _) r => namesAs r
+end
+
+def readsS : Stmt → List VName
+  | .decl _ _ dims => dims.flatMap namesE
+  | .sub _ _ _ _ rhe => namesE rhe
+  | .ite c => namesE c
+  | .ret e => namesE e
+  | .ceq l r => namesE l ++ namesE r
+  | .log args => args.flatMap (fun a => match a with | .expr e => namesE e | .str => [])
+  | .assert e => namesE e
+
+/-- (variable, block, position) of the substitutions the pre-pass counts -/
+def defSites (bs : List Block) : List (VName × Nat × Nat) :=
+  bs.zipIdx.flatMap (fun bi => bi.1.stmts.zipIdx.filterMap (fun sk =>
+    match sk.1 with
+    | .sub _ v _ _ rhe => if v.version.isNone && !isUpd rhe then some (v, bi.2, sk.2) else none
+    | _ => none))
+
+def lastDef (ds : List (VName × Nat × Nat)) (v : VName) : Option (Nat × Nat) :=
+  (ds.reverse.find? (fun d => d.1 == v)).map (·.2)
+
+/-- the second half of the pre-pass (after the `fix:` for assignments that are not on every path): an unversioned variable
+    read by a statement that its assignment does not precede on every path — another block that the assigning block does not
+    dominate, or an earlier statement of the same block — is marked as not constant -/
+def undom (bs : List Block) : List VName :=
+  let ds := defSites bs
+  bs.zipIdx.flatMap (fun bi => bi.1.stmts.zipIdx.flatMap (fun sj =>
+    (readsS sj.1).filter (fun v =>
+      match lastDef ds v with
+      | some (d, k) => !(if d == bi.2 then decide (k ≤ sj.2) else bi.1.doms.contains d)
+      | none => false)))
+
 /-- the environment the loop starts from -/
 def valInit (p : Int) (bs : List Block) : ValEnv :=
-  { prime := p, vals := [], nonConstant := multiOf (bs.flatMap (·.stmts)) }
+  { prime := p, vals := [], nonConstant := multiOf (bs.flatMap (·.stmts)) ++ undom bs }
 
 def valLoop : Nat → ValEnv → List Block → List Block × Bool
   | 0, _, bs => (bs, false)
